@@ -3,7 +3,15 @@
 
    A case is a HISTORY: one table value, a list of calls made on it one after the other (each
    with its own context value and arguments, each followed by the traversals the caller made of
-   the returned iterator), and what the caller saw of every call. *)
+   the returned iterator), and what the caller saw of every call.
+
+   The caller is either the only one (the calls are made one after the other in the harness's
+   process) or one goroutine among several that were released together on shared table values in
+   a fresh process (harness/cmd/c20/conc.go; its context labels start with g<i>.).  The model has
+   no state, neither in the table nor beside it, so it predicts the same answers for a goroutine
+   of a concurrent run as for a caller that is alone; a process that does not survive the run
+   (fatal error of the runtime, report of the race detector, panic, no end) is recorded as
+   [SPanic] for every call of every goroutine of that run. *)
 From Coq Require Import String.
 From OCI Require Export Base.Outcome Model.Funcs Model.FuncsRun.
 From OCI Require Import Proofs.Funcs Proofs.FuncsRun.
